@@ -1152,53 +1152,74 @@ func TestC41(t *testing.T) {
 		dbms.VerifClearTokens()
 		takeServerFatals()
 
-		// database with users, a library and a data table
-		nu := 1 + gen.Uniform(t, "nusers", 3)
+		// a library and a data table; the users table is missing, empty or
+		// populated at the start and changes at generated points later
 		names := []string{"joe", "sue", "admin"}
 		loc := e.srv.local
-		loc.Admin("create users (user, passhash) key(user)", nil)
 		loc.Admin("create stdlib (name, group, text) key(name, group)", nil)
 		loc.Admin("create t0 (k, a, b) key(k)", nil)
+		initial := gen.Pick(t, "initial users", []string{"missing", "missing", "empty", "empty", "users", "users", "users", "users", "users", "users"})
+		if initial != "missing" {
+			loc.Admin("create users (user, passhash) key(user)", nil)
+			e.usersTable = true
+		}
 		ut := loc.Transaction(true)
-		for i := 0; i < nu; i++ {
-			u := user41{Name: names[i], Hash: rapid.StringMatching(`[a-f0-9]{8,20}`).Draw(t, "passhash")}
-			e.users = append(e.users, u)
-			ut.Action(e.th, fmt.Sprintf("insert { user: %q, passhash: %q } into users", u.Name, u.Hash))
+		if initial == "users" {
+			nu := 1 + gen.Uniform(t, "nusers", 3)
+			for i := 0; i < nu; i++ {
+				u := user41{Name: names[i], Hash: rapid.StringMatching(`[a-f0-9]{8,20}`).Draw(t, "passhash")}
+				e.users = append(e.users, u)
+				ut.Action(e.th, fmt.Sprintf("insert { user: %q, passhash: %q } into users", u.Name, u.Hash))
+			}
 		}
 		ut.Action(e.th, "insert { name: 'Suneido', group: -1, text: 'class { }' } into stdlib")
 		ut.Action(e.th, "insert { k: 1, a: 1, b: 'one' } into t0")
 		if r := ut.Complete(); r != "" {
 			t.Fatalf("setup: %s", r)
 		}
+		e.step("database: users table %s", initial)
+		rec.Label("initial_users_" + initial)
 
 		defer func() {
 			for _, cn := range e.all {
 				cn.c.close()
 			}
 		}()
+		// A: the party that works normally. With users it logs in; without,
+		// its connection is accepted as it is (e.g. the administrator who
+		// will create the first user over it)
 		e.A = e.newConn()
-		if !e.login(e.A, e.users[0]) {
-			e.fail("setup: the documented login was rejected")
+		if e.A.restricted {
+			if !e.login(e.A, e.users[0]) {
+				e.fail("setup: the documented login was rejected")
+			}
+			e.A.authed = true
+			e.step("A: connected and logged in as %s", e.users[0].Name)
+		} else {
+			e.step("A: connected (database has no users)")
+			e.aCall("Size on a connection opened without users", func() { e.A.hi[0].Size() })
 		}
-		e.A.authed = true
-		e.step("A: connected and logged in as %s", e.users[0].Name)
 		nU := 1
 		if gen.Chance(t, "nU", 35) {
 			nU = 2
 		}
+		e.U = make([]*conn41, nU)
 		for i := 0; i < nU; i++ {
-			cn := e.newConn()
-			if gen.Chance(t, "two sessions", 50) {
-				cn.addSession()
+			// connections are opened at generated points: now, or when first used
+			if gen.Chance(t, "open now", 60) {
+				cn := e.unauth(i)
+				if gen.Chance(t, "two sessions", 50) {
+					cn.addSession()
+				}
 			}
-			e.U = append(e.U, cn)
 		}
 		e.refreshFingerprint()
 
 		nsteps := 5 + gen.Uniform(t, "nsteps", 26)
+		nevents := 0
 		for i := 0; i < nsteps; i++ {
 			ui := gen.Uniform(t, "ui", len(e.U))
-			switch gen.Pick(t, "kind", []string{"a", "req", "req", "req", "req", "req", "nonce", "auth"}) {
+			switch gen.Pick(t, "kind", []string{"a", "req", "req", "req", "req", "req", "nonce", "auth", "users", "open"}) {
 			case "a":
 				e.aStep()
 			case "req":
@@ -1213,26 +1234,59 @@ func TestC41(t *testing.T) {
 				e.checkNoEffect(desc)
 			case "auth":
 				e.uAuth(ui)
+			case "users":
+				if nevents < 4 {
+					nevents++
+					e.usersEvent()
+				}
+			case "open":
+				// a further connection is opened at this point of the history;
+				// the one in the slot stays open (and is judged at the end)
+				if len(e.all) < 8 {
+					if e.U[ui] != nil {
+						e.step("U%d: set aside, a further connection is opened", ui)
+						e.U[ui] = nil
+					}
+					e.unauth(ui)
+				}
 			}
 		}
-		// the connections that did not authenticate are still refused
-		for i, cn := range e.U {
-			if cn == nil {
+		// At the end: every connection that was opened while the database had
+		// users and did not authenticate is still refused (if the database
+		// has users now); one opened while it had none and has none now works
+		nlate := 0
+		for i, cn := range e.all {
+			if cn == e.A || cn.authed || cn.c.isDead() {
 				continue
 			}
-			_, errstr := rawRequest(cn.c, cn.sess[0], commands.Size, nil, false)
-			if errstr == "" {
-				e.fail("final: unauthenticated connection U%d can read the database size", i)
-			}
-			resp, errstr := rawRequest(cn.c, cn.sess[0], commands.GetOne,
-				[]warg{{K: 'y', I: '+'}, {K: 'i', I: 0}, {K: 'v', S: packedObj("users sort user")}}, false)
-			if errstr == "" {
-				e.fail("final: unauthenticated connection U%d read a users row: %q", i, resp)
+			switch {
+			case cn.restricted && e.haveUsers():
+				_, errstr := rawRequest(cn.c, cn.sess[0], commands.Size, nil, false)
+				if errstr == "" {
+					e.fail("final: connection #%d, opened while the database had users and never authenticated, can read the database size", i)
+				}
+				resp, errstr := rawRequest(cn.c, cn.sess[0], commands.GetOne,
+					[]warg{{K: 'y', I: '+'}, {K: 'i', I: 0}, {K: 'v', S: packedObj("users sort user")}}, false)
+				if errstr == "" {
+					e.fail("final: connection #%d, opened while the database had users and never authenticated, read a users row: %q", i, resp)
+				}
+				rec.Label("final_restricted_refused")
+				if cn.late {
+					nlate++
+					rec.Label("restricted_request_on_late_connection")
+				}
+			case !cn.restricted && !e.haveUsers():
+				if _, errstr := rawRequest(cn.c, cn.sess[0], commands.Size, nil, false); errstr != "" {
+					e.fail("final: connection #%d, opened while the database had no users (and it has none now), is refused: %s", i, errstr)
+				}
+				rec.Label("final_unrestricted_works")
 			}
 		}
 		e.checkNoEffect("final probes")
 		// and the authenticated one still works
 		e.aCall("final Size", func() { e.A.hi[0].Size() })
+		rec.LabelIf(e.usersAppeared, "case_users_appeared_after_a_connection")
+		rec.LabelIf(nlate > 0, "case_late_connection_judged")
 
 		rec.Case(e.ntAuth, strings.Join(e.steps, "|"))
 		rec.LabelIf(e.nAuthSuccess > 0, "case_with_successful_auth")
